@@ -32,6 +32,9 @@ TRUSTED_BASE = [
     'class Ex that absorbs the float constants of the source with their decimal-literal value',
 ]
 ASSUMPTIONS = [
+    'sends take no time in the executable two-thread model and in the tie; stalling sends (a send blocking 0.1 ... 2 s) are an '
+    'environment fault exercised by the oracle on the real code (call and packet level), and the stop handshake under stalls is '
+    'proved on a separate small model (C17_stop_joins_thread_for_every_stall)',
     'link contract: a packet handed to send_packet is a value (fresh object, never written again); under it the transmitted stream '
     'equals the commanded one for every transmit delay (theorem C17_link_values_transmitted_as_commanded); that the real commanders '
     'keep the contract is checked on every run by a link fake that queues packet references and serialises at transmit time',
@@ -47,7 +50,7 @@ ASSUMPTIONS = [
     'MotionCommander.__enter__ must succeed for the context to be entered (default_height != 0); a take_off that '
     'raises inside __enter__ is outside the statement (Python does not call __exit__)',
 ]
-PROVED = ('For every program of MotionCommander primitives (all 27 kinds incl. explicit land/take_off, user sleeps between commands and a raise), every '
+PROVED = ('For every program of MotionCommander primitives (all 27 kinds incl. explicit land/take_off, user sleeps between commands, link-state changes (cf.is_connected() flips anywhere in the body) and a raise), every '
           'schedule and every start time: once the with statement was entered, leaving it (normally or by any exception) '
           'ends the call log with send_stop_setpoint; send_notify_setpoint_stop at the same instant, the thread is gone '
           'and any later passage of time adds no call; the same for an explicit land(). While flying, consecutive hover '
@@ -83,7 +86,7 @@ def compare(terms, expected, tag):
         out = list(zip(bad[:6], full)) + [(i, None) for i in bad[6:]]
     return out
 
-EXC_CODE = {'none': 0, 'ZeroDivisionError': 1, 'ValueError': 2, 'NotFlying': 3, 'AlreadyFlying': 4, 'UserError': 5}
+EXC_CODE = {'none': 0, 'ZeroDivisionError': 1, 'ValueError': 2, 'NotFlying': 3, 'AlreadyFlying': 4, 'UserError': 5, 'NotConnected': 6}
 
 
 # ----------------------------------------------------------------------------------------------- helpers
@@ -128,14 +131,14 @@ MC_OPS = {
     'stop': ('OStopMotion', ''), 'start_turn_left': ('OStartTurnLeft', 'o'), 'start_turn_right': ('OStartTurnRight', 'o'),
     'start_circle_left': ('OStartCircleLeft', 'qo'), 'start_circle_right': ('OStartCircleRight', 'qo'),
     'start_linear_motion': ('OStartLinear', 'qqqo'), 'land': ('OLand', 'o'), 'take_off': ('OTakeOff', 'oo'),
-    'raise': ('ORaise', ''), 'wait': ('OWait', 'q'),
+    'raise': ('ORaise', ''), 'wait': ('OWait', 'q'), 'link_state': ('OLink', 'b'),
 }
 HL_OPS = {
     'left': ('HLeft', 'qo'), 'right': ('HRight', 'qo'), 'forward': ('HForward', 'qo'), 'back': ('HBack', 'qo'),
     'up': ('HUp', 'qo'), 'down': ('HDown', 'qo'), 'move_distance': ('HMove', 'qqqo'), 'go_to': ('HGoTo', 'qqoo'),
     'set_default_velocity': ('HSetVel', 'q'), 'set_default_height': ('HSetHeight', 'q'),
     'set_landing_height': ('HSetLanding', 'q'), 'land': ('HOLand', 'oo'), 'take_off': ('HOTakeOff', 'oo'),
-    'raise': ('HRaise', ''),
+    'raise': ('HRaise', ''), 'link_state': ('HLink', 'b'),
 }
 
 
@@ -144,7 +147,7 @@ def coq_op(op, table):
     args = list(op[1:]) + [None] * (len(kinds) - len(op) + 1)
     parts = [ctor]
     for k, a in zip(kinds, args):
-        parts.append(cq(a) if k == 'q' else coq_opt(a))
+        parts.append(('true' if a else 'false') if k == 'b' else cq(a) if k == 'q' else coq_opt(a))
     return '(' + ' '.join(parts) + ')' if len(parts) > 1 else ctor
 
 
@@ -313,6 +316,9 @@ def gen_mc_case(rng, quirks=True):
         if rng.random() < 0.10:
             ops.append(['wait', rng.choice(['0.05', '0.1', '0.2', '0.3', '0.5', '1', '0.45'])])
             continue
+        if rng.random() < 0.07:
+            ops.append(['link_state', rng.choice([0, 0, 0, 1])])       # cf.is_connected() changes during the body
+            continue
         if k < 0.30:
             name = rng.choice(['left', 'right', 'forward', 'back', 'up', 'down', 'up', 'down'])
             d = dist()
@@ -404,6 +410,9 @@ def gen_hl_case(rng, quirks=True):
         return rng.choice([None, None, '0.5', '1', '0.25', '0.2', '2', '3', '5', '0.05', '1.5'])
     for _ in range(n):
         k = rng.random()
+        if rng.random() < 0.07:
+            case['ops'].append(['link_state', rng.choice([0, 0, 0, 1])])
+            continue
         if k < 0.35:
             name = rng.choice(['left', 'right', 'forward', 'back', 'up', 'down', 'down'])
             d = rng.choice(DIST + (['0', '-0.3'] if quirks else []))
@@ -475,6 +484,12 @@ def fixed_cases():
         {'kind': 'mc', 'default_height': None, 'sched': [], 'epilogue': '0.5',
          'ops': [['forward', '1', '2'], ['move_distance', '3', '4', '0', '5'], ['up', '0.5', '2.5'], ['circle_left', '0.5', '3', '90'],
                  ['turn_right', '720', '720'], ['back', '0.01', '0.01']]},
+        {'kind': 'mc', 'default_height': None, 'sched': [], 'epilogue': '1', 'ops': [['link_state', 0]]},            # wave 11
+        {'kind': 'mc', 'default_height': None, 'sched': [0] * 10, 'epilogue': '1',
+         'ops': [['start_forward', None], ['link_state', 0], ['wait', '0.3'], ['raise']]},
+        {'kind': 'mc', 'default_height': None, 'sched': [], 'epilogue': '1',
+         'ops': [['land', None], ['link_state', 0], ['take_off', None, None], ['link_state', 1], ['take_off', None, None], ['link_state', 0]]},
+        {'kind': 'hl', 'ops': [['link_state', 0], ['up', '0.2', None], ['land', None, None], ['take_off', None, None]]},
         {'kind': 'hl', 'ops': [['down', '2', None]]},                                                               # F17b
         {'kind': 'hl', 'default_landing_height': '1', 'ops': []},                                                   # F17b
         {'kind': 'hl', 'ops': [['down', '0.5', None]]},                                      # height lands exactly on 0.0
@@ -651,9 +666,10 @@ def check_mc(case, r, consts):
             if names[max(0, a - 2):a] != ['c.send_stop_setpoint', 'c.send_notify_setpoint_stop']:
                 fails.append(('mc_land_without_stop', 'land() returned without stop, notify as its last calls',
                               ['c.send_stop_setpoint', 'c.send_notify_setpoint_stop'], names[max(0, a - 2):a]))
-    # -- stream period and height recurrence inside every flight
+    # -- stream period and height recurrence inside every flight (not under stalled sends: a send that blocks for longer than
+    #    the period cannot be followed by the next one in time; the text's period clause presupposes a link that takes them)
     prev = None
-    for e in ev:
+    for e in ([] if case.get('stalls') else ev):
         n = e[0]
         if n == 'p.set_value':
             prev = ('param', e[1]) if e[3] == '0' else None
@@ -832,6 +848,49 @@ def check_hl(case, r, consts):
     return fails
 
 
+STALL_D = ['0.1', '0.3', '0.6', '1.5', '2.0']
+
+
+def gen_stall_spec(rng):
+    """which sends of the setpoint thread block, and for how long (update period = 0.2 s)"""
+    m = rng.random()
+    if m < 0.35:
+        return {'every': 1, 'd': rng.choice(STALL_D)}
+    if m < 0.6:
+        return {'every': rng.choice([2, 3, 5]), 'from': rng.randrange(4), 'd': rng.choice(STALL_D)}
+    return {'at': sorted([k, rng.choice(STALL_D)] for k in rng.sample(range(70), rng.choice([3, 6, 12, 25])))}
+
+
+def gen_stall_case(rng):
+    """MotionCommander program under stalling sends; often with velocity changes queued right before the context is left, so that
+    land()/__exit__ finds the thread inside a send with events waiting behind it"""
+    c = gen_mc_case(rng)
+    c['ops'] = [o for o in c['ops'] if o[0] != 'wait' or float(Fraction(o[1])) <= 0.5][:6]
+    if c['default_height'] in ('0', '-0.2'):
+        c['default_height'] = None
+    if rng.random() < 0.6:
+        tail = rng.choice([[['start_forward', rng.choice(VELS)]], [['start_left', '0.3'], ['start_back', None]],
+                           [['start_up', '0.2'], ['wait', '0.05'], ['stop']], [['start_turn_left', None], ['start_forward', '0.5']]])
+        if not any(o[0] == 'raise' for o in c['ops']):
+            c['ops'] += tail
+    c['stalls'] = gen_stall_spec(rng)
+    return c
+
+
+def fixed_stall_cases():
+    return [
+        {'kind': 'mc', 'default_height': None, 'sched': [], 'epilogue': '3', 'stalls': {'every': 1, 'd': '0.6'},
+         'ops': [['start_forward', None]]},
+        {'kind': 'mc', 'default_height': None, 'sched': [0] * 20, 'epilogue': '5', 'stalls': {'every': 1, 'd': '2.0'},
+         'ops': [['start_forward', '0.5'], ['start_left', None], ['raise']]},
+        {'kind': 'mc', 'default_height': None, 'sched': [], 'epilogue': '3', 'stalls': {'at': [[9, '1.5'], [10, '0.6'], [12, '1.5']]},
+         'ops': [['wait', '0.1'], ['land', None], ['take_off', None, None], ['start_forward', None]]},
+        {'kind': 'wire', 'version': 10, 'sched': [], 'radio': [], 'stalls': {'every': 1, 'd': '0.6'}, 'flights': [
+            {'kind': 'mc', 'default_height': None, 'epilogue': '3', 'ops': [['start_forward', None]]},
+            {'kind': 'mc', 'default_height': None, 'epilogue': '3', 'ops': [['up', '0.2', None], ['raise']]}]},
+    ]
+
+
 def gen_float_mc_case(rng):
     """programs with arbitrary (irrational-norm) displacement vectors: float mode only"""
     c = gen_mc_case(rng, quirks=False)
@@ -950,7 +1009,7 @@ def check_wire(case, r, consts):
         got = [d[1:] for d in sent[b:a]]
         if exp is None:
             fails.append(('wire_unexpected_call', 'a helper called %s%r' % (name, args), 'stop/notify/hover/takeoff/land/go_to', name))
-        elif got != [exp]:
+        elif (exp not in got) if case.get('stalls') else (got != [exp]):    # while a send is stalled the other thread may send too
             fails.append(('wire_call_without_its_packet', '%s%r at t=%s must put exactly its own packet on the wire, whatever happened '
                           'before on this Crazyflie object' % (name, args, t), [exp], got))
     for i, fl in enumerate(r['flights']):
@@ -970,9 +1029,10 @@ def check_wire(case, r, consts):
                     if seg[-2:] != ['stop', 'notify']:
                         fails.append(('wire_mc_land_without_stop', 'flight %d: land() returned without STOP, release as its last packets' % (i + 1),
                                       ['stop', 'notify'], seg[-3:]))
-            fails += _air_displacement(case['flights'][i], fl, dec, consts, i)
+            if not case.get('stalls'):
+                fails += _air_displacement(case['flights'][i], fl, dec, consts, i)
             prev = None
-            for d in dec[fl['w0']:fl['w1']]:
+            for d in ([] if case.get('stalls') else dec[fl['w0']:fl['w1']]):
                 if d[1] == 'hover':
                     if prev is not None and d[0] - prev > period + TOL:
                         fails.append(('wire_stream_gap', 'flight %d: hover packets further apart than the update period' % (i + 1), period, d[0] - prev))
@@ -1122,6 +1182,16 @@ def oracle(ctx, deep=False):
     cases += fixed_wire_cases()
     for _ in range(ctx.scale(150, 2000) * k):
         cases.append(gen_wire_case(ctx.rng))
+    # wave 12: stalling sends (call level and packet level)
+    cases += fixed_stall_cases()
+    for _ in range(ctx.scale(120, 1500) * k):
+        cases.append(gen_stall_case(ctx.rng))
+    for _ in range(ctx.scale(40, 500) * k):
+        w = gen_wire_case(ctx.rng)
+        w['stalls'] = gen_stall_spec(ctx.rng)
+        for fl in w['flights']:
+            fl['epilogue'] = '3'
+        cases.append(w)
     fails = []
     seen = set()
     n = 0
@@ -1185,6 +1255,12 @@ def shrink(case, cls, consts):
         c2 = dict(cur, sched=[])
         if cls in _classes(c2, consts):
             cur = c2
+    if cur.get('stalls'):
+        for sp in (None, {'every': 1, 'd': '0.6'}):
+            c2 = dict(cur, stalls=sp)
+            if c2['stalls'] != cur['stalls'] and cls in _classes(c2, consts):
+                cur = c2
+                break
     for key in ('default_height', 'x', 'y', 'z', 'default_velocity', 'controller', 'wait', 'default_landing_height'):
         if cur.get(key) is not None:
             c2 = dict(cur)
@@ -1220,6 +1296,12 @@ def shrink_wire(cur, cls, consts):
         c2 = dict(cur, sched=[])
         if cls in _classes(c2, consts):
             cur = c2
+    if cur.get('stalls'):
+        for sp in (None, {'every': 1, 'd': '0.6'}):
+            c2 = dict(cur, stalls=sp)
+            if c2['stalls'] != cur['stalls'] and cls in _classes(c2, consts):
+                cur = c2
+                break
     for rd in ([], [1]):
         if cur.get('radio') not in (None, [], rd):
             c2 = dict(cur, radio=rd)
